@@ -640,6 +640,36 @@ func (h *hist) opCall() {
 			h.memo[key] = now
 		}
 	}
+	// D for Scan: the same text handed over as string and as []byte (drivers differ in that)
+	// must both be accepted with the same value or both be refused. The texts of the two
+	// refusals are not compared: the library's own message names the dynamic type of the source.
+	if entry == EScan && (scanKind == 4 || scanKind == 5) && !panicked {
+		var twin interface{} = append([]byte(nil), preIn...)
+		if scanKind == 5 {
+			twin = string(preIn)
+		}
+		d2 := pre.(date.Date)
+		var err2 error
+		twinPanicked := false
+		func() {
+			defer func() {
+				if recover() != nil {
+					twinPanicked = true
+				}
+			}()
+			err2 = d2.Scan(twin)
+		}()
+		h.res.Probes.Inc("scan_text_both_types")
+		if !twinPanicked && ((err == nil) != (err2 == nil) || (err == nil && d2 != h.d)) {
+			e2 := ""
+			if err2 != nil {
+				e2 = err2.Error()
+			}
+			if h.violate("D-string-bytes-disagree", name, fmt.Sprintf("date.Scan on the text %q: as %T it gives (%s, %q), as %T it gives (%s, %q)", clip(preIn), scanSrc, showVal(h.d), errText, twin, showVal(d2), e2)) {
+				return
+			}
+		}
+	}
 	// B: input immutability
 	if !bytes.Equal(data, preIn) {
 		if h.violate("B-input-modified", name, fmt.Sprintf("%s modified the bytes it was given: before %q after %q", name, clip(preIn), clip(data))) {
